@@ -62,7 +62,8 @@ def format_number(x):
 class FT:
     """The CPython float functions the modelled code uses, tabulated for the values of one case."""
 
-    def __init__(self):
+    def __init__(self, derive=False):
+        self.derive = derive   # tabulate ** 0.5 and ** 2 as well ($OMEGA / $SIGMA cases)
         self.tok = {}     # text -> Fraction(float(text))
         self.str = {}     # Fraction -> str(x)
         self.fmt = {}     # Fraction -> format_number(x)
@@ -77,25 +78,34 @@ class FT:
         if math.isfinite(v):
             self.tok[s] = Fraction(v)
 
+    def _plain(self, x):
+        k = Fraction(x)
+        if k not in self.str:
+            self.str[k] = str(x)
+            self.fmt[k] = format_number(x)
+            self.text(self.str[k])
+            self.text(self.fmt[k])
+        return k
+
+    def _square(self, x):
+        k = self._plain(x)
+        if k not in self.sq and abs(x) < 1e150:
+            q = x ** 2
+            self.sq[k] = Fraction(q)
+            self._plain(q)
+
     def value(self, x, depth=2):
         x = float(x)
         if not math.isfinite(x):
             return
-        k = Fraction(x)
-        if k in self.str:
+        k = self._plain(x)
+        if not self.derive or depth <= 0:
             return
-        self.str[k] = str(x)
-        self.fmt[k] = format_number(x)
-        self.text(self.str[k])
-        self.text(self.fmt[k])
-        if depth > 0 and x >= 0:
+        self._square(x)                       # SD token value -> variance
+        if x >= 0 and k not in self.sqrt:     # variance -> SD token value -> variance read back
             r = x ** 0.5
             self.sqrt[k] = Fraction(r)
-            self.value(r, depth - 1)
-        if depth > 0 and abs(x) < 1e150:
-            s = x ** 2
-            self.sq[k] = Fraction(s)
-            self.value(s, depth - 1)
+            self._square(r)
 
     def trees(self, nodes):
         toks = []
@@ -103,6 +113,11 @@ class FT:
             tree_tokens(n, toks)
         for t in toks:
             self.text(str(t.value))
+            if t.rule in ('NUMERIC',):
+                try:
+                    self.value(float(str(t.value)), 1)
+                except ValueError:
+                    pass
 
     def term(self):
         tok = ct.lst([ct.pair(text_term(s), ct.q(v)) for s, v in sorted(self.tok.items())])
@@ -239,6 +254,13 @@ def apply_edit(model, edit):
         names = set(edit['names'])
         new = Parameters.create([p for p in model.parameters if p.name not in names])
         return model.replace(parameters=new).update_source()
+    if op == 'replace':        # remove some thetas and add a new one in ONE update_source
+        names = set(edit['names'])
+        lo = fl(edit['lower'])
+        up = fl(edit['upper'])
+        newp = Parameter.create(edit['name'], fl(edit['init']), lower=lo, upper=up, fix=edit['fix'])
+        new = Parameters.create([p for p in model.parameters if p.name not in names] + [newp])
+        return model.replace(parameters=new).update_source()
     if op == 'multi':
         ch = {c['name']: c for c in edit['changes']}
         new = []
@@ -342,6 +364,10 @@ def intended_new_thetas(cur, edit):
                                     fix=edit['fix'])]
     elif op == 'remove':
         ps = [p for p in ps if p.name not in set(edit['names'])]
+    elif op == 'replace':
+        ps = [p for p in ps if p.name not in set(edit['names'])] + [
+            Parameter.create(edit['name'], fl(edit['init']), lower=fl(edit['lower']), upper=fl(edit['upper']),
+                             fix=edit['fix'])]
     elif op == 'multi':
         for c in edit['changes']:
             ps = [Parameter(p.name, fl(c['init']), fl(c['lower']), fl(c['upper']), c['fix'])
@@ -422,13 +448,18 @@ NAMES = ['TVCL', 'TVV', 'KA', 'POP_Q', 'THX', 'CLWT', 'c', 'TVCL', 'MAT', 'D1']
 def gen_theta_record(rng, exotic):
     k = rng.choice([1, 1, 1, 2, 2, 3, 4])
     s = '$THETA'
+    commented = False
     for i in range(k):
-        s += rng.choice([' ', '  ', '\n ', '\n', ' \t']) + gen_theta(rng, exotic)
+        sep = rng.choice(['\n ', '\n', '\n  ']) if commented else rng.choice([' ', '  ', '\n ', '\n', ' \t'])
+        s += sep + gen_theta(rng, exotic)
+        commented = False
         r = rng.random()
         if r < 0.3:
             s += rng.choice([' ; ', ';', '  ;  ', ' ;']) + rng.choice(NAMES)
+            commented = True
         elif r < 0.36:
             s += rng.choice([' ; 1 bad', ' ;', ' ; (0,1)', ' ; 2nd ; NM'])
+            commented = True
         elif exotic and r < 0.4:
             s += rng.choice([' NOABORT', ' ABORT'])
     return s + rng.choice(['\n', '\n', ' \n', '\n\n'])
@@ -452,7 +483,8 @@ def gen_theta_edit(rng, model, step):
     """A concrete, valid edit on the current real model (thetas only)."""
     ths = thetas_of(model.parameters, model.random_variables)
     vals = [float(Fraction(v)) for v in VALS]
-    ops = ['init', 'init', 'lower', 'upper', 'fix', 'unfix', 'fixto', 'unconstrain', 'multi', 'multi', 'add', 'remove']
+    ops = ['init', 'init', 'lower', 'upper', 'fix', 'unfix', 'fixto', 'unconstrain', 'multi', 'multi', 'add', 'remove',
+           'replace']
     for _ in range(20):
         op = rng.choice(ops)
         if not ths and op != 'add':
@@ -468,6 +500,20 @@ def gen_theta_edit(rng, model, step):
             if name in model.parameters.names:
                 continue
             return {'op': 'add', 'name': name, 'init': ftxt(ini), 'lower': ftxt(lo), 'upper': ftxt(up), 'fix': fix}
+        if op == 'replace':
+            if len(ths) < 2:
+                continue
+            lo, ini, up = sorted(rng.sample(vals, 3))
+            if ini == 0:
+                continue
+            lo = lo if rng.random() < 0.5 else -math.inf
+            up = up if rng.random() < 0.5 else math.inf
+            name = rng.choice(['POP_R', 'TVR']) + str(step)
+            if name in model.parameters.names:
+                continue
+            victims = [rng.choice(ths[-2:]).name] if rng.random() < 0.7 else [rng.choice(ths).name]
+            return {'op': 'replace', 'names': victims, 'name': name, 'init': ftxt(ini), 'lower': ftxt(lo),
+                    'upper': ftxt(up), 'fix': rng.random() < 0.3}
         if op == 'remove':
             if len(ths) < 2:
                 continue
@@ -510,4 +556,378 @@ def gen_theta_edit(rng, model, step):
             up = up if rng.random() < 0.5 else math.inf
             return {'op': 'multi', 'changes': [{'name': q.name, 'init': ftxt(ini), 'lower': ftxt(lo),
                                                 'upper': ftxt(up), 'fix': fix} for q in grp]}
+    return None
+
+
+# ================================================================== $OMEGA / $SIGMA
+def rv_model_code(omegas, sigmas, ne, ns):
+    lines = [f"P{i} = THETA(1)*EXP(ETA({i}))" for i in range(1, ne + 1)]
+    y = ' + '.join([f'P{i}' for i in range(1, ne + 1)] + [f'EPS({i})' for i in range(1, ns + 1)])
+    return HEAD + '\n'.join(lines) + f"\nY = {y}\n$THETA 1\n" + omegas + sigmas + TAIL
+
+
+OV = ['0.1', '0.2', '0.3', '0.04', '0.09', '1', '2', '0.5', '0.25', '1.5', '0.01', '4', '9', '0.16']
+OFIX = ['FIX', 'FIX', 'FIXED']
+OSD = ['SD', 'STANDARD']
+OVAR = ['VAR', 'VARIANCE']
+
+
+def gen_diag_record(rng, rec):
+    k = rng.choice([1, 1, 2, 3])
+    s = f'${rec}'
+    diagopt = rng.random() < 0.15
+    items, n = [], 0
+    for i in range(k):
+        v = spell(rng, rng.choice(OV))
+        fx = rng.choice(OFIX) if rng.random() < 0.25 else None
+        sc = rng.choice(OSD + OVAR) if rng.random() < 0.25 else None
+        opts = [o for o in (fx, sc) if o]
+        rng.shuffle(opts)
+        if rng.random() < 0.4:
+            pre = [o for o in opts if rng.random() < 0.3]
+            post = [o for o in opts if o not in pre]
+            item = '(' + ' '.join(pre + [v] + post) + ')'
+            m = 1
+            if rng.random() < 0.4 and not diagopt:
+                m = rng.choice([2, 2, 3])
+                item += f'x{m}'
+            n += m
+        else:
+            item = ' '.join([v] + opts)
+            n += 1
+        it = (rng.choice(['\n ', '\n  ']) if items and ';' in items[-1] else rng.choice([' ', '  ', '\n '])) + item
+        if rng.random() < 0.2:
+            it += rng.choice([' ; ', ';']) + rng.choice(['IIV_CL', 'IIV_V', 'RUV', 'IOV1', 'x 1'])
+        items.append(it)
+    if diagopt:
+        s += f' DIAGONAL({n})'
+    return s + ''.join(items) + '\n', n
+
+
+def gen_block_record(rng, rec):
+    k = rng.choice([1, 2, 2, 3])
+    opts = []
+    if rng.random() < 0.25:
+        opts.append(rng.choice(OFIX))
+    scale = rng.choice(['', '', '', '', 'sd', 'corr', 'sdcorr', 'chol'])
+    if scale in ('sd', 'sdcorr'):
+        opts.append(rng.choice(OSD))
+    if scale in ('corr', 'sdcorr'):
+        opts.append(rng.choice(['CORR', 'CORRELATION']))
+    if scale == 'chol':
+        opts.append('CHOLESKY')
+    if scale == '' and rng.random() < 0.2:
+        opts.append(rng.choice(OVAR + ['COV']))
+    rng.shuffle(opts)
+    pre = [o for o in opts if rng.random() < 0.7]
+    post = [o for o in opts if o not in pre]
+    s = f'${rec} BLOCK({k})' + ''.join(' ' + o for o in pre)
+    rows = []
+    for i in range(k):
+        row = []
+        for j in range(i + 1):
+            if i == j:
+                row.append(spell(rng, rng.choice(['0.1', '0.2', '0.3', '0.5', '1', '0.25', '0.04'])))
+            elif scale in ('corr', 'sdcorr'):
+                row.append(rng.choice(['0.1', '0.2', '0.25', '-0.125']))
+            else:
+                row.append(spell(rng, rng.choice(['0.01', '0.02', '0.001', '0.005'])))
+        rows.append(row)
+    flat = [x for r in rows for x in r]        # a11, a21, a22, a31, a32, a33
+    if k == 3 and rng.random() < 0.4 and scale == '':
+        # the two covariances of the last row written as (c)x2
+        s += '\n ' + flat[0] + ' ' + flat[1] + ' ' + flat[2] + f'\n ({flat[3]})x2 ' + flat[5]
+    else:
+        s += '\n' + '\n'.join(' ' + ' '.join(r) for r in rows)
+    if post:
+        s += ' ' + ' '.join(post)
+    if rng.random() < 0.2:
+        s += ' ; BLK'
+    return s + '\n', k
+
+
+def gen_rv_layout(rng, rec):
+    out, n = '', 0
+    prev_block = None
+    for _ in range(rng.choice([1, 1, 2, 3])):
+        r = rng.random()
+        if r < 0.6:
+            s, k = gen_diag_record(rng, rec)
+            prev_block = None
+        elif r < 0.92 or prev_block is None:
+            s, k = gen_block_record(rng, rec)
+            prev_block = k
+        else:
+            s, k = f'${rec} BLOCK({prev_block}) SAME\n', prev_block
+        out += s
+        n += k
+    return out, n
+
+
+def layout_read_exactly(model):
+    """False when read_model_from_string already changed the values (non positive definite block repaired by
+    nearest_valid_parameters - numerical linear algebra, outside this property)."""
+    cs = model.internals.control_stream
+    om, si = rv_params(model)
+    for typ, ps in (('OMEGA', om), ('SIGMA', si)):
+        vals = []
+        for r in cs.get_records(typ):
+            for _, inits, _, same in r.parse():
+                if not same:
+                    vals += [float(x) for x in inits]
+        if vals != [p.init for p in ps]:
+            return False
+    return True
+
+
+def rv_params(model):
+    """The OMEGA and SIGMA parameters in model.parameters order."""
+    eta_syms = model.random_variables.etas.free_symbols
+    eps_syms = model.random_variables.epsilons.free_symbols
+    om = [p for p in model.parameters if p.symbol in eta_syms]
+    si = [p for p in model.parameters if p.symbol in eps_syms]
+    return om, si
+
+
+def record_kind(rec):
+    if rec.root.find('same'):
+        return 'same'
+    if rec.root.find('block') or rec.root.find('bare_block'):
+        return 'block'
+    return 'diag'
+
+
+def record_nparams(rec):
+    return sum(len(inits) for (_, inits, _, same) in rec.parse() if not same)
+
+
+def init_token_texts(rec):
+    """The text of the init token of every parameter the record defines (xn expanded)."""
+    from pharmpy.internals.parse.generic import eval_token
+    kind = record_kind(rec)
+    if kind == 'same':
+        return []
+    out = []
+    for node in rec.root.subtrees('diag_item' if kind == 'diag' else 'omega'):
+        n = int(eval_token(node.subtree('n').leaf('INT'))) if node.find('n') else 1
+        out += [str(node.subtree('init').leaf('NUMERIC').value)] * n
+    return out
+
+
+def block_array(rec, params):
+    """What OmegaRecord.update computes before touching the tree (numpy; engine)."""
+    import math as m
+    import numpy as np
+    from pharmpy.internals.math import flattened_to_symmetric
+    from pharmpy.internals.parse.generic import eval_token
+    size = int(eval_token(rec.root.subtree('block').subtree('size').leaf('INT')))
+    fix, sd, corr, cholesky = rec._block_flags()
+    A = flattened_to_symmetric([p.init for p in params])
+    if corr:
+        for i in range(size):
+            for j in range(size):
+                if i != j:
+                    A[i, j] = A[i, j] / (m.sqrt(A[i, i]) * m.sqrt(A[j, j]))
+    if sd:
+        np.fill_diagonal(A, A.diagonal() ** 0.5)
+    if cholesky:
+        A = np.linalg.cholesky(A)
+    inds = np.tril_indices_from(A)
+    return [float(x) for x in A[inds]], (sd or corr or cholesky)
+
+
+def oparse_term(rec, ft):
+    ft.trees([rec.root])
+    try:
+        blocks = rec.parse()
+        items = []
+        for names, inits, fix, same in blocks:
+            ft.value(inits[0])
+            items.append(ct.pair(ct.opt(None if names[0] is None else text_term(names[0])),
+                                 ct.pair(ct.q(Fraction(float(inits[0]))), ct.boolean(fix))))
+        res = rres_term(True, ct.lst(items))
+    except Exception as e:
+        res = rres_term(False, str(err_kind(e)))
+    return f"(mkOP {node_term(rec.root)} {res})"
+
+
+def rv_structure(model):
+    out = []
+    for d in model.random_variables:
+        out.append(','.join(d.names) + '|' + d.level + '|' + str(d.variance).replace('\n', ''))
+    return out
+
+
+def named_vals(model, ft):
+    om, si = rv_params(model)
+    items = []
+    for p in om + si:
+        ft.value(p.init)
+        items.append(ct.pair(text_term(p.name), ct.pair(ct.q(Fraction(float(p.init))), ct.boolean(p.fix))))
+    for s in rv_structure(model):
+        items.append(ct.pair(text_term(s), ct.pair(ct.q(0), 'false')))
+    return ct.lst(items)
+
+
+def apply_rv_edit(model, edit):
+    from pharmpy import modeling as md
+    from pharmpy.model import Parameter, Parameters
+    op = edit['op']
+    if op == 'oinit':
+        return md.set_initial_estimates(model, {edit['name']: fl(edit['v'])})
+    if op == 'ofix':
+        return md.fix_parameters(model, edit['names'])
+    if op == 'ounfix':
+        return md.unfix_parameters(model, edit['names'])
+    if op == 'omulti':
+        ch = {c['name']: c for c in edit['changes']}
+        new = [Parameter.create(p.name, fl(ch[p.name]['init']), lower=p.lower, upper=p.upper, fix=ch[p.name]['fix'])
+               if p.name in ch else p for p in model.parameters]
+        return model.replace(parameters=Parameters.create(new)).update_source()
+    raise ValueError(op)
+
+
+def observe_rv_step(cur, edit, fresh_parse_recs):
+    """One non-structural edit of OMEGA/SIGMA parameters.  Returns (term of type ostep, info, edited)."""
+    from pharmpy.model.external.nonmem.nmtran_parser import NMTranParser
+    from pharmpy.modeling import read_model_from_string
+    ft = FT(derive=True)
+    info = {'edit': edit['op']}
+    cs = cur.internals.control_stream
+    before = [('OMEGA', r) for r in cs.get_records('OMEGA')] + [('SIGMA', r) for r in cs.get_records('SIGMA')]
+    try:
+        edited = apply_rv_edit(cur, edit)
+        err = None
+    except Exception as e:
+        edited, err = None, e
+        info['edit_error'] = f'{type(e).__name__}: {str(e)[:120]}'
+    parses = [oparse_term(r, ft) for r in fresh_parse_recs if record_kind(r) == 'diag']
+    recs_t, reparse_t, spell_t = [], [], []
+    reread_t = 'None'
+    info['scaled_block'] = False
+    if edited is not None:
+        om, si = rv_params(edited)
+        om_old, si_old = rv_params(cur)
+        cs2 = edited.internals.control_stream
+        after = list(cs2.get_records('OMEGA')) + list(cs2.get_records('SIGMA'))
+        assert len(after) == len(before), 'structural change in a non-structural edit'
+        code = edited.code
+        info['code'] = code
+        try:
+            cs3 = NMTranParser().parse(code)
+            re_recs = list(cs3.get_records('OMEGA')) + list(cs3.get_records('SIGMA'))
+        except Exception:
+            re_recs = None
+        pos = {'OMEGA': 0, 'SIGMA': 0}
+        for idx, ((typ, rb), ra) in enumerate(zip(before, after)):
+            new_all, old_all = (om, om_old) if typ == 'OMEGA' else (si, si_old)
+            k = record_nparams(rb)
+            ps = new_all[pos[typ]:pos[typ] + k]
+            ps_old = old_all[pos[typ]:pos[typ] + k]
+            pos[typ] += k
+            kind = record_kind(rb)
+            arr = []
+            if kind == 'block':
+                arr, scaled = block_array(rb, ps)
+                info['scaled_block'] = info['scaled_block'] or scaled
+            for p in ps:
+                ft.value(p.init)
+            for x in arr:
+                ft.value(x)
+            ft.trees([rb.root, ra.root])
+            recs_t.append(f"(mkOR {node_term(rb.root)} "
+                          + ct.lst([ct.pair(ct.q(Fraction(float(p.init))), ct.boolean(p.fix)) for p in ps]) + ' '
+                          + ct.lst([ct.q(Fraction(x)) for x in arr]) + f" (ROk {node_term(ra.root)}))")
+            # spelling of unchanged inits
+            tb, ta = init_token_texts(rb), init_token_texts(ra)
+            if len(tb) == len(ps_old) and len(ta) == len(ps) and len(ps) == len(ps_old):
+                for po, pn, xb, xa in zip(ps_old, ps, tb, ta):
+                    if po.name == pn.name and po.init == pn.init:
+                        spell_t.append(ct.pair(ct.opt(text_term(xb)), ct.opt(text_term(xa))))
+            # the regenerated tree against the parse of its re-read text
+            if re_recs is not None and len(re_recs) == len(after) and kind == 'diag':
+                rr = re_recs[idx]
+                ft.trees([rr.root])
+                parses.append(oparse_term(rr, ft))
+                try:
+                    blocks = rr.parse()
+                    for _, inits, _, _ in blocks:
+                        ft.value(inits[0])
+                    res = rres_term(True, ct.lst([ct.pair(ct.q(Fraction(float(inits[0]))), ct.boolean(fix))
+                                                  for _, inits, fix, _ in blocks]))
+                except Exception as e:
+                    res = rres_term(False, str(err_kind(e)))
+                reparse_t.append(ct.pair(node_term(ra.root), res))
+        try:
+            rr_model = read_model_from_string(code)
+            reread_t = '(Some (ROk ' + ct.pair(named_vals(rr_model, ft), named_vals(edited, ft)) + '))'
+            info['reread_ok'] = True
+            a = [(p.name, p.init, p.fix) for p in sum(rv_params(rr_model), [])]
+            b = [(p.name, p.init, p.fix) for p in sum(rv_params(edited), [])]
+            info['consistent'] = (a == b and rv_structure(rr_model) == rv_structure(edited))
+            info['max_rel_dev'] = max([abs(x[1] - y[1]) / max(abs(y[1]), 1e-300) for x, y in zip(a, b)] + [0.0]) \
+                if len(a) == len(b) else None
+        except Exception as e:
+            reread_t = '(Some (RErr ' + str(err_kind(e)) + '))'
+            info['reread_ok'] = False
+            info['reread_error'] = f'{type(e).__name__}: {str(e)[:120]}'
+    else:
+        for typ, rb in before:
+            ft.trees([rb.root])
+            recs_t.append(f"(mkOR {node_term(rb.root)} [] [] (RErr {err_kind(err)}))")
+    term = ("(mkOS " + ft.term() + "\n  " + ct.lst(recs_t) + "\n  " + ct.lst(parses) + "\n  " + ct.lst(reparse_t)
+            + "\n  " + reread_t + "\n  " + ct.lst(spell_t) + ")")
+    return term, info, edited
+
+
+def gen_rv_edit(rng, model):
+    om, si = rv_params(model)
+    allp = om + si
+    if not allp:
+        return None
+    cs = model.internals.control_stream
+    recs = [('OMEGA', r) for r in cs.get_records('OMEGA')] + [('SIGMA', r) for r in cs.get_records('SIGMA')]
+    # parameters grouped per record
+    groups, pos = [], {'OMEGA': 0, 'SIGMA': 0}
+    for typ, r in recs:
+        k = record_nparams(r)
+        src = om if typ == 'OMEGA' else si
+        groups.append((record_kind(r), src[pos[typ]:pos[typ] + k]))
+        pos[typ] += k
+    groups = [g for g in groups if g[1]]
+    for _ in range(20):
+        kind, ps = rng.choice(groups)
+        op = rng.choice(['oinit', 'oinit', 'ofix', 'ounfix', 'omulti', 'omulti'])
+        if kind == 'diag':
+            if op == 'oinit':
+                p = rng.choice(ps)
+                v = float(rng.choice(OV))
+                if v != p.init:
+                    return {'op': 'oinit', 'name': p.name, 'v': ftxt(v)}
+            elif op == 'ofix':
+                c = [p for p in ps if not p.fix]
+                if c:
+                    return {'op': 'ofix', 'names': [rng.choice(c).name]}
+            elif op == 'ounfix':
+                c = [p for p in ps if p.fix and p.init != 0]
+                if c:
+                    return {'op': 'ounfix', 'names': [rng.choice(c).name]}
+            else:
+                i = rng.randrange(len(ps))
+                grp = ps[i:i + rng.choice([1, 2, 3])]
+                v = float(rng.choice(OV))
+                fx = rng.random() < 0.4
+                return {'op': 'omulti', 'changes': [{'name': q.name, 'init': ftxt(v), 'fix': fx} for q in grp]}
+        else:
+            # block: variances may only grow, covariances stay small, FIX only as a whole
+            size = int(round(((8 * len(ps) + 1) ** 0.5 - 1) / 2))
+            diag_idx = [i * (i + 1) // 2 + i for i in range(size)]
+            if op in ('oinit', 'omulti'):
+                i = rng.choice(diag_idx)
+                v = ps[i].init * rng.choice([1.5, 2, 4])
+                return {'op': 'oinit', 'name': ps[i].name, 'v': ftxt(v)}
+            if op == 'ofix' and not ps[0].fix:
+                return {'op': 'ofix', 'names': [p.name for p in ps]}
+            if op == 'ounfix' and ps[0].fix:
+                return {'op': 'ounfix', 'names': [p.name for p in ps]}
     return None
